@@ -12,16 +12,17 @@ From Y2 Require Import Proofs.Interfaces Proofs.WalkProofs Proofs.SpecProofs Pro
 (* C01_dispatch: for EVERY well-formed registry (any inheritance graph, any split of the registrations, any methods
    and definitions), every method of it, every placement of virtual and non-virtual parameters (m_shape) and every
    legal tuple of dynamic classes, the word the call path reads from update's tables is the one the documented rule
-   designates.  No bound on classes, methods, definitions or arity. *)
-Theorem C01_dispatch : forall R C mi m args,
-  wf_registry R -> compile R = Ok C -> nth_error (r_methods R) mi = Some m -> legal R m args ->
+   designates.  No bound on classes, methods, definitions or arity.  `stale` is whatever Policy::dispatch_data held before
+   this update (any earlier history): it has no influence (see C07). `compile R` is `compile_with [] R`. *)
+Theorem C01_dispatch : forall R stale C mi m args,
+  wf_registry R -> compile_with stale R = Ok C -> nth_error (r_methods R) mi = Some m -> legal R m args ->
   exists cs, map (key (o_lat C)) cs = args /\
              resolve C mi (actuals_of C (m_shape m) cs) = Ok (word_of_outcome mi (spec_dispatch R (meth_defs R m) args)).
 Proof. exact dispatch_correct. Qed.
 Print Assumptions C01_dispatch.
 
 (* update itself never fails, and never runs out of the model's fuel, on a well-formed registry *)
-Theorem C01_update_total : forall R, wf_registry R -> exists C, compile R = Ok C /\ o_fuel_ok C = true.
+Theorem C01_update_total : forall R stale, wf_registry R -> exists C, compile_with stale R = Ok C /\ o_fuel_ok C = true.
 Proof. exact compile_total. Qed.
 Print Assumptions C01_update_total.
 
